@@ -173,7 +173,7 @@ func judge(op string, a, b int64, e expect, o panrun.Obs) string {
 		return fmt.Sprintf("expected Int %d", e.i)
 	case "float":
 		if o.Kind == "value" {
-			if v, ok := o.Val.(*object.PanFloat); ok && (v.Value == e.f || (math.IsNaN(v.Value) && math.IsNaN(e.f))) {
+			if v, ok := o.Val.(*object.PanFloat); ok && (math.Float64bits(v.Value) == math.Float64bits(e.f) || (math.IsNaN(v.Value) && math.IsNaN(e.f))) { // the quotient itself, sign of zero included
 				return ""
 			}
 		}
@@ -364,6 +364,11 @@ func run(c *core.Ctx) {
 		7:             {"Int.bear.new(7)", "(true * 7)", `"7".I`},
 		-3:            {"Int.bear.new(-3)", "(true * -3)", `"-3".I`},
 		math.MaxInt64: {"Int.bear.new(9223372036854775807)", "(true * 9223372036854775807)", "9223372036854775807e0", "0x7fffffffffffffff", "0b" + strings.Repeat("1", 63)},
+		// a sign written in front of a literal with leading zeros (decimal, like the literal without the sign)
+		-10:  {"-010", "-0_10", "-0010"},
+		-755: {"-0755"},
+		-17:  {"-017", "-0_017"},
+		10:   {"010", "0_10"},
 		// values above 2^53 written in exponent / radix form (a float64 cannot hold them)
 		9007199254740993:    {"9007199254740993e0", "900719925474099300e-2", "0x20000000000001"},
 		123456789012345700:  {"1234567890123457e2", "12345678901234570e1"},
@@ -373,7 +378,7 @@ func run(c *core.Ctx) {
 	}
 	plain := []int64{math.MinInt64, -7, -1, 0, 1, 6, math.MaxInt64, 9007199254740992, 100}
 	k = 0
-	for _, v := range []int64{0, 1, 7, -3, math.MaxInt64, math.MinInt64, 9007199254740993, 123456789012345700, 900719925474099301, 9000000000000000000} {
+	for _, v := range []int64{0, 1, 7, -3, -10, -755, -17, 10, math.MaxInt64, math.MinInt64, 9007199254740993, 123456789012345700, 900719925474099301, 9000000000000000000} {
 		for _, sp := range spell[v] {
 			k++
 			if !c.Mine(k) {
